@@ -43,7 +43,7 @@ META = {
         "List/Dict/Set.validate wrap in Trait*Object; validators are bound to "
         "the inner trait. Not decided: the inner trait's own correctness, the "
         "numeric length expressions."),
-    "C05": dict(level="other", trusted_base=_TB_PY, explanation=_PARTIAL +
+    "C05": dict(level="other", trusted_base=_TB_C + _TB_PY, explanation=_PARTIAL +
         "Decided per TraitList mutator: at most one notify per path, only "
         "after the underlying mutation, none on failing paths; `removed` read "
         "before and `added` validated/read after the mutation; silence guards "
@@ -55,25 +55,25 @@ META = {
         "by __setitem__/__delitem__/pop/insert and the capture of the removed "
         "item, as decision tables over the orderings of the index against 0, "
         "len and -len. NOT decided: slice normalisation arithmetic."),
-    "C06": dict(level="other", trusted_base=_TB_PY, explanation=_PARTIAL +
+    "C06": dict(level="other", trusted_base=_TB_C + _TB_PY, explanation=_PARTIAL +
         "As C05 for TraitDict, plus purity of the dict event factory, "
         "membership typestate of validated keys (`added` keys known absent, "
         "`changed` keys known present in the pre-state), the key-absent "
         "precondition of setdefault's emulated store and element-wise deep "
         "copy of keys and values. Not decided: the dict algebra of deltas on "
         "values."),
-    "C07": dict(level="other", trusted_base=_TB_PY, explanation=_PARTIAL +
+    "C07": dict(level="other", trusted_base=_TB_C + _TB_PY, explanation=_PARTIAL +
         "As C05 for TraitSet, plus membership typestate of validated items "
         "(`added` is filtered against the pre-state or is post-state minus a "
         "pre-state snapshot), self-attribute closure and agreement of the "
         "copy protocol across the six container classes. Not decided: set "
         "algebra on values."),
-    "C08": dict(level="other", trusted_base=_TB_PY, explanation=_PARTIAL +
+    "C08": dict(level="other", trusted_base=_TB_C + _TB_PY, explanation=_PARTIAL +
         "Decided: maintainer polarity in every observer; hook-up projection "
         "equals maintenance projection; instance-trait mode; notify flag gates "
         "user notifiers; IObserver exhaustiveness. Not decided: reachability "
         "after arbitrary histories."),
-    "C09": dict(level="other", trusted_base=_TB_PY, explanation=_PARTIAL +
+    "C09": dict(level="other", trusted_base=_TB_C + _TB_PY, explanation=_PARTIAL +
         "Decided: undo-log completeness over the registration call graph; "
         "add_to/remove_from symmetry; weak-only storage of target and method "
         "owner; __init__/__eq__/__hash__ field agreement. Not decided: the "
@@ -92,7 +92,7 @@ META = {
         "string-shape domain; argument roles in setattr_delegate; listener "
         "attach/detach pairing; recursion bound on delegation chains. Not "
         "decided: read/write agreement over histories."),
-    "C12": dict(level="other", trusted_base=_TB_PY, explanation=_PARTIAL +
+    "C12": dict(level="other", trusted_base=_TB_C + _TB_PY, explanation=_PARTIAL +
         "Decided: cache-key agreement chain decorator/metadata/invalidator; "
         "the metaclass rebuilds the dependency observer for every observed "
         "property from the final trait alone; pop-before-notify; observers "
@@ -123,7 +123,7 @@ META = {
         "flow; uniqueness precondition of ObserverGraph; '+name' builds a "
         "MetadataFilter whose test is `is not None`. Not decided: meaning "
         "per string."),
-    "C16": dict(level="other", trusted_base=_TB_PY, explanation=_PARTIAL +
+    "C16": dict(level="other", trusted_base=_TB_C + _TB_PY, explanation=_PARTIAL +
         "Decided: listener re-registration polarity in every handle_*; every "
         "unregistration precedes every registration within one event; remove "
         "flag threaded to every (un)registration; remove path disposes; both "
@@ -147,7 +147,7 @@ META = {
         "only after a test for a specific exception class or at a confirmed "
         "abandon-this-alternative site. Not "
         "decided: fault injection at every k-th callback (dynamic)."),
-    "C20": dict(level="other", trusted_base=_TB_PY, explanation=_PARTIAL +
+    "C20": dict(level="other", trusted_base=_TB_C + _TB_PY, explanation=_PARTIAL +
         "Decided: lock window contains every propagating assignment; the "
         "dominating lock test asks about exactly the (partner, partner-side "
         "name) pair written; add/remove registration pairing; weak partner "
